@@ -1,0 +1,28 @@
+//go:build verif
+
+package inverted
+
+// Exported wrappers used by the verification harness in /verif (build tag
+// verif only). They add no behaviour.
+
+func VerifToByteSortableInt64(v int64) ([]byte, error)     { return toByteSortable(v) }
+func VerifToByteSortableFloat64(v float64) ([]byte, error) { return toByteSortable(v) }
+func VerifToByteSortableString(v string) ([]byte, error)   { return toByteSortable(v) }
+func VerifToByteSortableUint64(v uint64) ([]byte, error)   { return toByteSortable(v) }
+
+func VerifFromByteSortableInt64(b []byte) (v int64, err error) {
+	err = fromByteSortable(b, &v)
+	return
+}
+func VerifFromByteSortableFloat64(b []byte) (v float64, err error) {
+	err = fromByteSortable(b, &v)
+	return
+}
+func VerifFromByteSortableString(b []byte) (v string, err error) {
+	err = fromByteSortable(b, &v)
+	return
+}
+func VerifFromByteSortableUint64(b []byte) (v uint64, err error) {
+	err = fromByteSortable(b, &v)
+	return
+}
